@@ -129,7 +129,23 @@ def run(ctx):
         pkg.styles = [X("w:style", {"w:type": t, "w:styleId": sid}, [X("w:name", {"w:val": nm})] if nm else [])
                       for t, tbl in (("paragraph", STYLES), ("character", RSTYLES), ("table", TSTYLES)) for sid, nm in tbl]
         pkg.numbering = g.numbering_part()
-        pkg.body = [block]
+        # a SIBLING before the probe: same kind and style, different numbering — every element is matched on its own features
+        sib = None
+        if k == "p" and rng.random() < 0.6:
+            ppr0 = [X("w:pStyle", {"w:val": el["style_id"]})] if el["style_id"] else []
+            choices = [(lv, nid) for lv in (0, 1, 2) for nid in ("1", "2")]
+            table = {"1": [False, False, True], "2": [True, True, False]}
+            choices = [(lv, nid) for lv, nid in choices if (str(lv), table[nid][lv]) != el["numbering"]]
+            if el["numbering"] is not None and el["style_id"] != "ListParagraph" and rng.random() < 0.4:
+                num0 = None
+            else:
+                lv, nid = rng.choice(choices)
+                ppr0.append(X("w:numPr", {}, [X("w:ilvl", {"w:val": str(lv)}), X("w:numId", {"w:val": nid})]))
+                num0 = (str(lv), table[nid][lv])
+            el0 = dict(el, numbering=num0, text="first%d" % i)
+            sib = (X("w:p", {}, ([X("w:pPr", {}, ppr0)] if ppr0 else []) + [X("w:r", {}, [X("w:t", {}, [XT(el0["text"])])])]), el0)
+            dist["with_sibling"] = dist.get("with_sibling", 0) + 1
+        pkg.body = ([sib[0]] if sib else []) + [block]
         if embedded or rng.random() < 0.3:
             pkg.embedded_style_map = "\n".join(l for _, l in embedded)
         opts = {"style_map": "\n".join(l for _, l in custom) if custom or rng.random() < 0.5 else None,
@@ -139,35 +155,47 @@ def run(ctx):
         html, raw = A.run_impl(data, opts, None)
         ctx.count()
         dist["cases"] += 1
-        # expected winner, from the property text
+        # expected winner, from the property text — for the probe and for its sibling
         active = custom + (embedded if incl_emb else [])
-        winner = None
-        for j, (m, _) in enumerate(active):
-            if spec_matches(m, el):
-                winner = ms.index(m) if False else [x for x, (mm, _) in enumerate(lines) if mm is m][0]
-                break
+        same_kind = {"m%d" % x for x, (mm, _) in enumerate(lines) if mm["kind"] == k}
         dist["decoys"] += sum(1 for m, _ in active if not spec_matches(m, el))
-        meta = {"body": [xml_json(block)], "element": el, "expected_marker": None if winner is None else "m%d" % winner,
-                "same_kind_markers": ["m%d" % x for x, (mm, _) in enumerate(lines) if mm["kind"] == k], "custom": [l for _, l in custom], "embedded": [l for _, l in embedded],
+
+        def winner_of(e):
+            for m, _ in active:
+                if spec_matches(m, e):
+                    return [x for x, (mm, _) in enumerate(lines) if mm is m][0]
+            return None
+        winner = winner_of(el)
+        elements = ([sib[1]] if sib else []) + [el]
+        meta = {"body": [xml_json(b) for b in pkg.body], "element": el, "expected_marker": None if winner is None else "m%d" % winner,
+                "elements": [dict(e, numbering=list(e["numbering"]) if e.get("numbering") else None,
+                                  expected_marker=None if winner_of(e) is None else "m%d" % winner_of(e)) for e in elements],
+                "same_kind_markers": sorted(same_kind), "custom": [l for _, l in custom], "embedded": [l for _, l in embedded],
                 "options": opts, "index": i}
         bad = None
         if isinstance(html, Exception):
             bad = "conversion raised %r" % html
         else:
-            chain = find_marker(O.strict_parse(html.value), el["text"]) or ()
-            same_kind = {"m%d" % x for x, (mm, _) in enumerate(lines) if mm["kind"] == k}
-            classes = [c for _, c in chain if c in same_kind]
-            if winner is not None:
-                (dist.__setitem__("winner_custom", dist["winner_custom"] + 1) if winner < cut
-                 else dist.__setitem__("winner_embedded", dist["winner_embedded"] + 1))
-                if classes != ["m%d" % winner]:
-                    bad = "expected the mapping with marker m%d to win, output carries %s" % (winner, classes)
-            else:
-                dist["winner_default_or_none"] += 1
-                if classes:
-                    bad = "no explicit or embedded mapping matches, but the output carries marker %s" % classes
-                elif k == "p" and not incl_def and not any(nm == "p" for nm, _ in chain):
-                    bad = "an unmatched paragraph did not become p"
+            forest = O.strict_parse(html.value)
+            for e in elements:
+                w = winner_of(e)
+                chain = find_marker(forest, e["text"]) or ()
+                classes = [c for _, c in chain if c in same_kind]
+                if w is not None:
+                    if e is el:
+                        (dist.__setitem__("winner_custom", dist["winner_custom"] + 1) if w < cut
+                         else dist.__setitem__("winner_embedded", dist["winner_embedded"] + 1))
+                    if classes != ["m%d" % w]:
+                        bad = "%s: expected the mapping with marker m%d to win, output carries %s" % (e["text"], w, classes)
+                else:
+                    if e is el:
+                        dist["winner_default_or_none"] += 1
+                    if classes:
+                        bad = "%s: no explicit or embedded mapping matches, but the output carries marker %s" % (e["text"], classes)
+                    elif k == "p" and not incl_def and not any(nm == "p" for nm, _ in chain):
+                        bad = "%s: an unmatched paragraph did not become p" % e["text"]
+                if bad:
+                    break
         if bad:
             ctx.violation("oracle", bad, dict(meta, api="mammoth.convert_to_html", observed=None if isinstance(html, Exception) else html.value[:600]), True)
         else:
@@ -202,8 +230,13 @@ def replay(ctx, rep):
     if isinstance(html, Exception):
         print("replay: raised", html)
         return 1
-    chain = find_marker(O.strict_parse(html.value), r["element"]["text"]) or ()
-    classes = [c for _, c in chain if c in r["same_kind_markers"]]
-    exp = [r["expected_marker"]] if r.get("expected_marker") else []
-    print("replay: expected marker", exp, "observed", classes)
-    return 0 if classes == exp else 1
+    forest = O.strict_parse(html.value)
+    rc = 0
+    for e in r.get("elements") or [dict(r["element"], expected_marker=r.get("expected_marker"))]:
+        chain = find_marker(forest, e["text"]) or ()
+        classes = [c for _, c in chain if c in r["same_kind_markers"]]
+        exp = [e["expected_marker"]] if e.get("expected_marker") else []
+        print("replay:", e["text"], "expected marker", exp, "observed", classes)
+        if classes != exp:
+            rc = 1
+    return rc
